@@ -142,12 +142,21 @@ def handleRegion (circular : Bool) (L : Int) (rec : BioRecord) (j : Json) : R Js
                ("kf_exons_span_file", toJson (exonsSpanFile circular L rd rec.features)),
                ("kf_file_reconnects", toJson (fileReconnects circular L rd))]
 
-def handle (j : Json) : R Json := do
+def handleRecord (j : Json) : R Json := do
   let seq ← strF j "seq"
   let parent ← listOf featureOfJson (← fld j "parent")
   let record : BioRecord := { seq := seq.toList, features := parent }
   let L := record.length
   let regions ← (← arrF j "regions").mapM (handleRegion (boolFD j "circular" true) L record)
   return jObj [("regions", jArr regions)]
+
+/-- one record, or — an input of several records written by `main.write_outputs` — each record by itself: every
+    region file is held against its own record -/
+def handle (j : Json) : R Json := do
+  match j.getObjVal? "records" with
+  | .ok _ =>
+    let records ← (← arrF j "records").mapM handleRecord
+    return jObj [("records", jArr records)]
+  | .error _ => handleRecord j
 
 end ASV.Drv.C12
